@@ -2,7 +2,7 @@
    per-candidate coefficients, adds them up ([conv image], Prelude/GDict.v) and elects by
    [get_n_best] keeps a sole winner sole when ONE ballot is replaced by a ballot whose image gives
    the winner at least as much and everybody else at most as much.  Holds for every image. *)
-From Coq Require Import ZArith QArith List Bool Lia Lqa Permutation.
+From Coq Require Import ZArith QArith List Bool Lia Lqa Permutation Pnat.
 From VL Require Import Prelude.Sx Prelude.GDict Model.GetNBest Proofs.GetNBest_proofs Proofs.QOrd
      Proofs.Convert_proofs.
 Import ListNotations.
@@ -207,4 +207,104 @@ Proof.
   - intros k Hk. unfold img_first, coef. cbn [fold_right fst snd kitem].
     destruct (sx_eqb k (kc c)) eqn:E; [apply sx_eqb_spec in E; congruence|].
     destruct (sx_eqb k (kc x)); lra.
+Qed.
+
+(* ---- positional rules: moving the winner one place up on a ballot of plain ranks, for any rank
+   scorer whose score at the higher of the two places is at least the score at the lower one *)
+Lemma coef_app (a b : list (sx * Q)) k : (coef sx_eqb (a ++ b) k == coef sx_eqb a k + coef sx_eqb b k)%Q.
+Proof. induction a as [|[k0 c] a IH]; simpl; [ring|]. rewrite IH. ring. Qed.
+
+Lemma coef_cons k0 c (l : list (sx * Q)) k : coef sx_eqb ((k0, c) :: l) k = ((if sx_eqb k k0 then c else 0) + coef sx_eqb l k)%Q.
+Proof. reflexivity. Qed.
+
+Definition plain_ballot (cs : list C) : ranked := map IP cs.
+
+Lemma pos_image (cs : list C) (sc : list Q) :
+  flat_map (fun isc : item * Q => map (fun c => (kc c, snd isc)) (members (fst isc))) (combine (plain_ballot cs) sc)
+  = map (fun cq : C * Q => (kc (fst cq), snd cq)) (combine cs sc).
+Proof.
+  revert sc. induction cs as [|c cs IH]; intros sc; simpl; [reflexivity|].
+  destruct sc as [|q sc]; simpl; [reflexivity|]. rewrite IH. reflexivity.
+Qed.
+
+Lemma combine_app_eq {X Y} (a : list X) (b : list Y) a' b' : length a = length b ->
+  combine (a ++ a') (b ++ b') = combine a b ++ combine a' b'.
+Proof.
+  revert b. induction a as [|x a IH]; intros [|y b] H; simpl in *; try discriminate; [reflexivity|].
+  rewrite IH by lia. reflexivity.
+Qed.
+
+Definition pos_img (s : scorer) (n_cands : nat) (r : ranked) : list (sx * Q) :=
+  match img_positional s n_cands r with Some l => l | None => [] end.
+
+Theorem positional_instance (s : scorer) (n_cands : nat) pre_b post_b (pre post : list C) (x w : C) (wgt : Q)
+    (s_pre s_post : list Q) (a b : Q) :
+  (0 <= wgt)%Q -> x <> w ->
+  rank_scores s n_cands (length (pre ++ x :: w :: post)) = Some (s_pre ++ a :: b :: s_post) ->
+  length s_pre = length pre -> (b <= a)%Q ->
+  get_n_best Qle_bool (dconv (pos_img s n_cands) (pre_b ++ (plain_ballot (pre ++ x :: w :: post), wgt) :: post_b)) 1 = [Cand (kc w)] ->
+  get_n_best Qle_bool (dconv (pos_img s n_cands) (pre_b ++ (plain_ballot (pre ++ w :: x :: post), wgt) :: post_b)) 1 = [Cand (kc w)].
+Proof.
+  intros Hw Hxw Hsc Hlen Hba.
+  assert (Hl : length (pre ++ w :: x :: post) = length (pre ++ x :: w :: post)) by (rewrite !app_length; simpl; lia).
+  assert (I1 : pos_img s n_cands (plain_ballot (pre ++ x :: w :: post))
+               = map (fun cq : C * Q => (kc (fst cq), snd cq)) (combine pre s_pre) ++ (kc x, a) :: (kc w, b) ::
+                 map (fun cq : C * Q => (kc (fst cq), snd cq)) (combine post s_post)).
+  { unfold pos_img, img_positional. unfold plain_ballot at 1. rewrite map_length, Hsc. fold (plain_ballot (pre ++ x :: w :: post)).
+    rewrite pos_image, (combine_app_eq pre s_pre) by (symmetry; exact Hlen). rewrite map_app. reflexivity. }
+  assert (I2 : pos_img s n_cands (plain_ballot (pre ++ w :: x :: post))
+               = map (fun cq : C * Q => (kc (fst cq), snd cq)) (combine pre s_pre) ++ (kc w, a) :: (kc x, b) ::
+                 map (fun cq : C * Q => (kc (fst cq), snd cq)) (combine post s_post)).
+  { unfold pos_img, img_positional. unfold plain_ballot at 1. rewrite map_length, Hl, Hsc. fold (plain_ballot (pre ++ w :: x :: post)).
+    rewrite pos_image, (combine_app_eq pre s_pre) by (symmetry; exact Hlen). rewrite map_app. reflexivity. }
+  apply (additive_sole_winner sx_eqb sx_eqb_spec (pos_img s n_cands)); [exact Hw| | | |].
+  - intros k. rewrite I1, I2, !map_app. simpl. rewrite !in_app_iff. simpl. intros [H|[H|[H|H]]]; right; tauto.
+  - rewrite I2, map_app. simpl. apply in_or_app. right. left. reflexivity.
+  - rewrite I1, I2, !coef_app, !coef_cons, sx_eqb_refl.
+    destruct (sx_eqb (kc w) (kc x)) eqn:E; [apply sx_eqb_spec, kc_inj in E; congruence|]. lra.
+  - intros k Hk. rewrite I1, I2, !coef_app, !coef_cons.
+    destruct (sx_eqb k (kc w)) eqn:E; [apply sx_eqb_spec in E; congruence|].
+    destruct (sx_eqb k (kc x)); lra.
+Qed.
+
+(* the built-in scorers Dowdall, ModifiedBorda and FixedTop are non-increasing along a ballot *)
+Lemma map_seq_split {X} (f : nat -> X) n s_pre a b s_post :
+  map f (seq 0 n) = s_pre ++ a :: b :: s_post -> a = f (length s_pre) /\ b = f (S (length s_pre)).
+Proof.
+  intros H.
+  assert (Hn : (S (length s_pre) < n)%nat).
+  { apply (f_equal (@length X)) in H. rewrite map_length, seq_length, app_length in H. simpl in H. lia. }
+  assert (Ha : nth_error (map f (seq 0 n)) (length s_pre) = Some a).
+  { rewrite H, nth_error_app2 by lia. rewrite Nat.sub_diag. reflexivity. }
+  assert (Hb : nth_error (map f (seq 0 n)) (S (length s_pre)) = Some b).
+  { rewrite H, nth_error_app2 by lia. replace (S (length s_pre) - length s_pre)%nat with 1%nat by lia. reflexivity. }
+  rewrite nth_error_map in Ha, Hb.
+  assert (Hs : forall i, (i < n)%nat -> nth_error (seq 0 n) i = Some i).
+  { intros i Hi. rewrite (nth_error_nth' _ 0%nat) by (rewrite seq_length; exact Hi). rewrite seq_nth by exact Hi. reflexivity. }
+  rewrite Hs in Ha by lia. rewrite Hs in Hb by lia. simpl in Ha, Hb. split; congruence.
+Qed.
+
+Lemma of_nat_S_le l : (Pos.of_nat (S l) <= Pos.of_nat (S (S l)))%positive.
+Proof. rewrite (Nat2Pos.inj_succ (S l)) by lia. apply Pos.lt_le_incl, Pos.lt_succ_diag_r. Qed.
+
+Lemma dowdall_nonincreasing n_cands k s_pre a b s_post :
+  rank_scores Dowdall n_cands k = Some (s_pre ++ a :: b :: s_post) -> (b <= a)%Q.
+Proof.
+  unfold rank_scores. intros [= H]. destruct (map_seq_split _ _ _ _ _ _ H) as [-> ->].
+  unfold Qle. cbn [Qnum Qden]. rewrite !Z.mul_1_l. apply Pos2Z.pos_le_pos.
+  apply (of_nat_S_le (length s_pre)).
+Qed.
+
+Lemma modified_borda_nonincreasing n_cands k s_pre a b s_post :
+  rank_scores ModifiedBorda n_cands k = Some (s_pre ++ a :: b :: s_post) -> (b <= a)%Q.
+Proof.
+  unfold rank_scores. intros [= H]. destruct (map_seq_split _ _ _ _ _ _ H) as [-> ->].
+  rewrite <- Zle_Qle. lia.
+Qed.
+
+Lemma fixed_top_nonincreasing top n_cands k s_pre a b s_post :
+  rank_scores (FixedTop top) n_cands k = Some (s_pre ++ a :: b :: s_post) -> (b <= a)%Q.
+Proof.
+  unfold rank_scores. intros [= H]. destruct (map_seq_split _ _ _ _ _ _ H) as [-> ->].
+  rewrite <- Zle_Qle. lia.
 Qed.
